@@ -113,6 +113,10 @@ def _if(d, depth, sp, cond_branches=False):
     return ['IF', c, a, b]
 
 
+FLIPS = {'A1': False, 'A2': True, 'A3': 2, 'A4': 0, 'A5': 0, 'B1': False,
+         'B3': 0, 'C1': True, 'C2': 3, 'D1': 0, 'D2': False}
+
+
 def _build(d, depth):
     sp = _Spies()
     k = d.pick(6)
@@ -122,7 +126,14 @@ def _build(d, depth):
         t = _andor(d, depth, sp)
     else:
         t = ['NOT', _cond(d, depth, sp)]
-    return {'tree': t}
+    case = {'tree': t}
+    if d.pick(3) == 0:
+        # evaluate, change some inputs, evaluate AGAIN on the same evaluator:
+        # the second result must follow the new inputs
+        keys = sorted(FLIPS)
+        n = d.int(1, 4)
+        case['flip'] = sorted({d.choice(keys) for _ in range(n)})
+    return case
 
 
 def strategy(tier):
@@ -245,7 +256,7 @@ def ref_eval(t, log, must, mustnot):
     if k == 'e':
         return Err(t[1])
     if k == 'r':
-        return CELLS.get(t[1])
+        return CUR[0].get(t[1])
     if k == 'rng':
         return ('RANGE', t[1])
     if k == 'poison':
@@ -331,6 +342,7 @@ def ref_eval(t, log, must, mustnot):
 
 
 CRASHED = [False]
+CUR = [CELLS]
 
 
 def _has_crash_poison(t):
@@ -341,7 +353,7 @@ def _has_crash_poison(t):
 def _items(v):
     if isinstance(v, tuple) and v and v[0] == 'RANGE':
         from vf.ref.refeval import range_cells
-        return [CELLS.get(a) for row in range_cells(v[1]) for a in row]
+        return [CUR[0].get(a) for row in range_cells(v[1]) for a in row]
     return [v]
 
 
@@ -397,6 +409,31 @@ def judge(case):
         obs = norm(ev.evaluate('Sheet1!Q1'))
     except Exception as err:  # noqa: BLE001
         obs = root_exc(err)
+    CUR[0] = CELLS
+    if case.get('flip'):
+        first = _assess(case, res, tree, text, obs, log, 'first')
+        if res.fails:
+            return res
+        cur = dict(CELLS)
+        for a in case['flip']:
+            cur[a] = FLIPS[a]
+            ev.set_cell_value('Sheet1!' + a, FLIPS[a])
+        CUR[0] = cur
+        del log[:]
+        try:
+            obs = norm(ev.evaluate('Sheet1!Q1'))
+        except Exception as err:  # noqa: BLE001
+            obs = root_exc(err)
+        try:
+            _assess(case, res, tree, text, obs, log, 'after-input-change')
+        finally:
+            CUR[0] = CELLS
+        res.nontrivial = True
+        return res
+    return _assess(case, res, tree, text, obs, log, '')
+
+
+def _assess(case, res, tree, text, obs, log, stage):
     logset = set(log)
     must, mustnot = set(), set()
     CRASHED[0] = obs[0] == 'X'
@@ -412,7 +449,7 @@ def judge(case):
         ('crash-selected',) if crashed else ())
     res.nontrivial = bool(mustnot) or (
         tree[0] in ('AND', 'OR') and len(tree[1]) >= 3)
-    feat = _feature(tree)
+    feat = _feature(tree) + ((':' + stage) if stage else '')
     if crashed:
         # a selected branch really is broken: an exception is legitimate
         if obs[0] != 'X':
